@@ -49,8 +49,9 @@ MD_KINDS = {
 CLIENT_KINDS = ('ext-rename', 'ext-delete')
 IDENT = [dict(VSHIM_PID='4242', VSHIM_RANDOM='7'), dict(VSHIM_PID='5353', VSHIM_RANDOM='50'), dict(VSHIM_PID='6464', VSHIM_RANDOM='90')]
 CONF_NAMES = ['conf', 'confB', 'confC']
-TIMEOUT = 6.0
+TIMEOUT = 30.0
 BUDGET = 4000          # size of the sampled families (see families())
+SAMPLE_UNIVERSES = 8    # distinct sampled schedule sets (VERIF_SEED modulo this)
 
 
 def conf_for(kind, root, rule):
@@ -217,7 +218,7 @@ class Combo:
             if cnt:                       # (p, 0) is "not yet": no yield point
                 done[p] += cnt
                 stops[p].append(done[p])
-        procs, reqfd, keep, logs, pidfd = [None] * n, [None] * n, [None] * n, [None] * n, [None] * n
+        procs, reqfd, keep, logs, pidfd, outf = [None] * n, [None] * n, [None] * n, [None] * n, [None] * n, [None] * n
         state = ['new'] * n          # new / paused / exited
         executed = [0] * n            # calls issued so far (mdsort: known at pauses and at the end)
         client_pos = [0] * n
@@ -246,8 +247,11 @@ class Combo:
                 # report, then wait for the word `go`: a read that ends without it (the writer of the previous release was still
                 # closing its end when this reader attached) is repeated, so one release lets exactly one pause go on
                 env['VSHIM_PAUSE_CMD'] = 'echo "$VSHIM_PAUSE_INDEX" > %s; until read x < %s && [ "$x" = go ]; do :; done' % (rq, ak)
-            procs[p] = subprocess.Popen([scen.tools.mdsort, '-f', self.confs[p]], stdin=subprocess.DEVNULL, stdout=subprocess.PIPE,
-                                        stderr=subprocess.STDOUT, env=env, cwd=root)
+            # its own process group (the pause commands are its children: a kill of the group leaves no shell behind), output to a file
+            # (nothing but the party holds it open for the coordinator to wait on)
+            outf[p] = open(root + '.p%d.out' % p, 'wb')
+            procs[p] = subprocess.Popen([scen.tools.mdsort, '-f', self.confs[p]], stdin=subprocess.DEVNULL, stdout=outf[p],
+                                        stderr=subprocess.STDOUT, env=env, cwd=root, start_new_session=True)
             pidfd[p] = os.pidfd_open(procs[p].pid)
 
         def release(p):
@@ -288,13 +292,16 @@ class Combo:
                     procs[p].wait()
                     return None
                 if time.time() - t0 > TIMEOUT:
-                    procs[p].kill()
-                    notes.append('party %d timed out' % p)
-                    return None
+                    raise vlib.CheckError('C17 schedules: party %d neither pauses nor ends within %d s' % (p, TIMEOUT))
 
         def finish(p):
-            out, _ = procs[p].communicate()
-            outs[p] = out or b''
+            procs[p].wait()
+            outf[p].close()
+            try:
+                outs[p] = open(outf[p].name, 'rb').read()[-2000:]
+                os.unlink(outf[p].name)
+            except OSError:
+                pass
             status[p] = procs[p].returncode
             state[p] = 'exited'
             for fd in (reqfd[p], keep[p], pidfd[p]):
@@ -359,9 +366,16 @@ class Combo:
                         executed[p], state[p] = k, 'paused'
         finally:
             for p in range(n):
-                if procs[p] is not None and procs[p].poll() is None:
-                    procs[p].kill()
+                if procs[p] is not None and procs[p].returncode is None:
+                    # not reaped yet (so its pid still names its group): kill the whole group - the party and whatever pause command it
+                    # is waiting in; nothing of it may outlive the schedule
+                    try:
+                        os.killpg(procs[p].pid, 9)
+                    except OSError:
+                        pass
                     procs[p].wait()
+                    if outf[p] is not None and not outf[p].closed:
+                        outf[p].close()
                 for fd in (reqfd[p], keep[p], pidfd[p]):
                     if fd is not None:
                         os.close(fd)
@@ -580,6 +594,20 @@ def review_class(rule_shape, pshape, victims):
     return None
 
 
+def essential_victims(cls, victims):
+    """The preempted (kind, phase) pairs a class is about - what `review_class` looked at: any ONE of them has to be present in a
+    sampled schedule of that shape (first party's action kind + window, as for the pinned F13/F14 histories)."""
+    if cls == 'inflight-copy-visible':
+        return [v for v in victims if v.split(':')[0] == 'label' and v.split(':')[1] in INFLIGHT]
+    if cls == 'placeholder-visible':
+        return [v for v in victims if v.split(':')[0] == 'flag']
+    if cls == 'name-reuse-unlink':
+        return [v for v in victims if v.split(':')[0] in COPIERS]
+    if cls == 'inflight-copy-loss':
+        return [v for v in victims if v.split(':')[0] in COPIERS and v.split(':')[1] in INFLIGHT]
+    return []
+
+
 SCHED_TABLE = os.path.join(vlib.ROOT, 'known', 'C17_sched_histories.json')
 EXHAUSTIVE = ('one-preemption', 'two-preemptions', 'match-all')
 
@@ -598,15 +626,17 @@ def load_table():
 
 
 def table_class(table, family, sig, shape):
-    """Class of a wrong tree the model reproduces: the exact history for the enumerated families, a listed shape whose preempted
-    (kind, phase) pairs are all present for the sampled ones; else `unlisted`."""
+    """Class of a wrong tree the model reproduces: the exact history for the enumerated families; for the sampled ones a listed shape
+    (same rule shape, exactly the same things wrong, its preempted (kind, phase) pair present); else `unlisted`."""
     if family in EXHAUSTIVE or family == 'witness':
         return table['exact'].get(sig, 'unlisted')
     rs, ps, vs = shape.split(' || ')
     have = set(v for v in vs.split(',') if v)
-    for trs, tps, tvs, cls in table['shapes']:
-        if trs == rs and tps == ps and tvs <= have:
-            return cls
+    # with the stale unlink of the model's history (F31 is listed with it), then without (the other classes do not depend on it)
+    for want in (ps, ','.join(t for t in ps.split(',') if t != 'stale-unlink')):
+        for trs, tps, tvs, cls in table['shapes']:
+            if trs == rs and tps == want and tvs <= have:
+                return cls
     return 'unlisted'
 
 
@@ -649,24 +679,12 @@ def run_job(job):
     def note(key, example):
         e = out['hist'].setdefault(key, {'n': 0, 'example': example})
         e['n'] += 1
-    try:
-        results, answers = [], []
+    pending = []
 
-        def flush():
-            answers.extend(vlib.run_batch([vlib.driver_path()], [c.request(s) for s, _ in results[len(answers):]], nproc=1))
-        for s in scheds:
-            try:
-                results.append((s, c.run(s)))
-            except vlib.CheckError as e:
-                # the harness lost a party: report it with the schedule, go on in a fresh sandbox
-                out['n'] += 1
-                note(('harness', str(e)[:80], '', False), {'family': family, 'parties': list(kinds), 'rule': rule, 'schedule': sched_text(s), 'what': [],
-                                                            'model_disagrees': ['harness: %s' % e]})
-                flush()
-                c.cleanup()
-                c = Combo(_W['wt'], _W['h'], _W['henv'], kinds, rule)
-        flush()
-        for (s, res), ans in zip(results, answers):
+    def flush(c):
+        """The model's runs of the schedules gathered in this sandbox; judge each."""
+        answers = vlib.run_batch([vlib.driver_path()], [c.request(s) for s, _ in pending], nproc=1)
+        for (s, res), ans in zip(pending, answers):
             out['n'] += 1
             out['switches'] += max(0, len([1 for a, b in zip(s, s[1:]) if a[0] != b[0]]))
             out['calls'] += sum(len(t) for t in res['traces'])
@@ -682,6 +700,25 @@ def run_job(job):
                  {'family': family, 'parties': list(kinds), 'rule': rule, 'schedule': sched_text(s), 'history': sig, 'shape': shape, 'what': probs[:6],
                   'model_disagrees': diffs[:6], 'notes': res['notes'][:4], 'exit': res['status'],
                   'traces': [[l for l in t][-12:] for t in res['traces']] if diffs else None})
+        del pending[:]
+    try:
+        for s in scheds:
+            for attempt in (1, 2):
+                try:
+                    pending.append((s, c.run(s)))
+                    break
+                except vlib.CheckError as e:
+                    # the harness lost a party (a pause command that does not come back on an overloaded machine): judge what was
+                    # gathered in this sandbox, go on in a fresh one, try the schedule once more; a second failure is reported
+                    flush(c)
+                    c.cleanup()
+                    c = Combo(_W['wt'], _W['h'], _W['henv'], kinds, rule)
+                    out['retries'] = out.get('retries', 0) + 1
+                    if attempt == 2:
+                        out['n'] += 1
+                        note(('harness', str(e)[:80], False, False), {'family': family, 'parties': list(kinds), 'rule': rule, 'schedule': sched_text(s),
+                                                                      'what': [], 'model_disagrees': ['harness: %s' % e]})
+        flush(c)
         return out
     finally:
         c.cleanup()
@@ -809,7 +846,10 @@ def sweep(tools, sc, seed, budget, only=None, progress=True):
     history key = (family, exact signature, shape, has oracle problems, model agrees)."""
     t0 = time.time()
     h, henv = ec.harness(sc)
-    rng = random.Random(seed * 7919 + 17)
+    # the sampled families are drawn from one of SAMPLE_UNIVERSES fixed streams (VERIF_SEED picks which): every schedule any seed can
+    # draw has been run on the pinned tree when known/C17_sched_histories.json was produced (tools/pin_histories.py sched), so an
+    # unlisted history is a change of the code, never the luck of the draw
+    rng = random.Random((seed % SAMPLE_UNIVERSES) * 7919 + 17)
     md = list(MD_KINDS)
     ctx = multiprocessing.get_context('fork')
     nproc = int(os.environ.get('VERIF_JOBS', '0')) or vlib.NCPU
